@@ -344,6 +344,11 @@ class DefinitionsMapper:
 
             inner.attrs.extend(attrs)
 
+        # SOAP 1.1 section 4: the Header must be the first child of the Envelope,
+        # whatever the order of the soap:header/soap:body binding extensions.
+        target.attrs.sort(key=lambda attr: attr.name != "Header")
+        target.inner.sort(key=lambda inner: inner.name != "Header")
+
         return target
 
     @classmethod
